@@ -107,6 +107,7 @@ type genTree struct {
 	bases    []uint64 // numeric cluster bases (per field for compound)
 	collPfx  [][]byte
 	lim      int
+	strNUL   bool
 }
 
 var smallAlphabet = []byte{0x00, 0x01, 'a', 'b', 0x7F, 0x80, 0xFF}
@@ -365,7 +366,11 @@ func (g *genTree) newNumKey(r *RNG) []byte {
 		var out []byte
 		for i, ft := range kt.Schema {
 			if ft == "str" {
-				out = append(out, g.alphaBytes(r, r.Intn(5), nulFreeAlphabet)...)
+				ab := nulFreeAlphabet
+				if g.strNUL {
+					ab = smallAlphabet
+				}
+				out = append(out, g.alphaBytes(r, r.Intn(5), ab)...)
 				break
 			}
 			var u uint64
@@ -714,8 +719,14 @@ func genTrace(prop string, seed uint64, run int, o genOpts) *Trace {
 		if kt.Kind == "compound" && prop == "C13" {
 			cfg.SpareCodec = true
 		}
+		ownCodec := kt.Kind == "compound" && r.Chance(1, 3)
+		if ownCodec {
+			cfg.Codec = "own"
+		}
 		tr.Trees = append(tr.Trees, cfg)
-		gts = append(gts, newGenTree(r, kt, val, o.lim))
+		gt := newGenTree(r, kt, val, o.lim)
+		gt.strNUL = ownCodec // an escaping codec may carry 0x00 inside its string field
+		gts = append(gts, gt)
 	}
 	if o.domain == "KF-NUL-PREFIX" {
 		for _, g := range gts {
